@@ -20,6 +20,7 @@ from common import Check, CoqError
 env.shim_oscrypto()
 import bpdrive as B  # noqa: E402
 import cbor2  # noqa: E402
+import check_C10  # noqa: E402  (generator of random histories, report_routable)
 
 # Defects of the unchanged code rediscovered by the oracle, reported to the coordinator, not (yet) listed
 # in known_findings.json.  Printed as PENDING-FINDING; they do not fail the run.
@@ -109,6 +110,39 @@ def grid_cases(quick):
             out.append(('grid:%s/%s' % (oname, kind),
                         dict(node_id=NODE, rx_routes=odef['rx'], tx_routes=rpt_routes + odef['tx'], hist=hist, now_ms=800000000000)))
     return out
+
+
+def sweep_cases():
+    ''' Forward route with an MTU within a few octets of the bundle as it must be forwarded: payload lengths
+    0, 1, 23, 24 x MTU = size+1 ... size-8, size-20, size/2 x every request-flag subset that includes the
+    forwarding or the deletion report.  One agent per (payload length, MTU offset); each bundle has its own
+    destination and transmit route so that the MTU is relative to ITS size, computed with the independent
+    encoder (B.forwarded_size), not by the code under test. '''
+    out = []
+    subsets = [bits for bits in itertools.product([0, 1], repeat=len(REQ_BITS)) if bits[1] or bits[3]]
+    for length in (0, 1, 23, 24):
+        for off in [1, 0, -1, -2, -3, -4, -5, -6, -7, -8, -20, 'half']:
+            hist = []
+            tx = [dict(pattern='^dtn://rpt/', mtu=None)]
+            for (idx, bits) in enumerate(subsets):
+                flags = sum(flag for (flag, bit) in zip(REQ_BITS, bits) if bit)
+                spec = dict(dest='dtn://d/%02d' % idx, src=SRC, report_to=RPT, flags=flags, time=1000, seq=idx, payload_hex='41' * length)
+                size = B.forwarded_size(spec, NODE, 800000000000)
+                mtu = size // 2 if off == 'half' else size + off
+                spec['model_size'] = size
+                hist.append(spec)
+                tx.append(dict(pattern='^dtn://d/%02d$' % idx, mtu=mtu, model_rpt=0))
+            out.append(('sweep:payload-%d/mtu-size%s' % (length, ('/2' if off == 'half' else '%+d' % off)),
+                        dict(node_id=NODE, rx_routes=[['^dtn://d/', 'forward']], tx_routes=tx, hist=hist, now_ms=800000000000)))
+    return out
+
+
+def fill_observed_fragfeas(case, raw):
+    ''' Model input b_fragfeas for the sweep: did fragments of this bundle really reach a CL? '''
+    for (spec, obs) in zip(case['hist'], raw):
+        frags = [evt for evt in obs['events'] if evt[0] == 'tx' and (evt[1]['bundle'].get('primary') or {}).get('frag') is not None
+                 and not (evt[1]['bundle'].get('primary') or {}).get('is_admin')]
+        spec['model_fragfeas'] = bool(frags) and spec.get('frag') is None
 
 
 # ----------------------------------------------------------------------------- the oracle
@@ -210,6 +244,23 @@ def oracle_c19(case, raw):
                 bad.append(('C19/forwarded-bundle-reported-deleted', where))
         if len(reports) > 1:
             bad.append(('C19/more-than-one-report-for-one-processing', where))
+        # a bundle routed to forwarding of which nothing reached a CL was deleted: say so if asked to
+        dest = spec.get('dest') or 'dtn:none'
+        routed_fwd = dest != node and dest != B.SAND_GROUP_EID and B.first_route(case['rx_routes'], dest)[1] == 'forward'
+        if (routed_fwd and not fwds and not delivers and flags & B.FLAG_REQ_DELETION
+                and check_C10.report_routable(case, subject.get('report_to'))):
+            told = any((ent['bundle'].get('admin') or {}).get('status', {}).get('deleted', {}).get('asserted') for ent in reports)
+            if not told:
+                sig = 'C19/nothing-sent-but-no-deletion-report'
+                if fragments_without_cl(case, spec):
+                    sig = 'C19/asserts-forwarded-but-nothing-sent/fragments-on-route-whose-cl-is-not-attached'
+                bad.append((sig, where + ': routed to forward, nothing handed to a CL, deletion report requested and routable, reports %r' % (
+                    [[name for name in STATUS_FLAG if (ent['bundle'].get('admin') or {}).get('status', {}).get(name, {}).get('asserted')] for ent in reports],)))
+        # a whole forwarded bundle has the size the independent encoder predicts (guards the MTU sweep)
+        if 'model_size' in spec:
+            for ent in fwds:
+                if (ent['bundle'].get('primary') or {}).get('frag') is None and ent['size'] != spec['model_size']:
+                    bad.append(('C19/harness-size-prediction-off', where + ' predicted %d sent %d' % (spec['model_size'], ent['size'])))
     return bad
 
 
@@ -297,8 +348,7 @@ def main():
             (tr_ok, table_detail) = (False, str(err)[:400])
     chk.obligation('translator:reporttable', tr_ok, table_detail)
 
-    import check_C10
-    cases = corpus_cases() + grid_cases(chk.quick())
+    cases = corpus_cases() + grid_cases(chk.quick()) + sweep_cases()
     for _ in range(40 if chk.quick() else 6000):
         cases.append(('random', check_C10.gen_case(chk.rng, chk.rng.choice([4, 8, 12]))))
 
@@ -307,6 +357,9 @@ def main():
     with concurrent.futures.ProcessPoolExecutor(max_workers=12) as pool:
         impl = list(pool.map(B.run_impl, [case for (_tag, case) in cases], chunksize=4))
     phase['impl'] = round(time.time() - mark, 1)
+    for ((tag, case), (_canon, raw)) in zip(cases, impl):
+        if tag.startswith('sweep:'):
+            fill_observed_fragfeas(case, raw)
     mark = time.time()
     model = None
     model_err = ''
@@ -342,6 +395,8 @@ def main():
         chk.count('case_kind', tag.split(':')[0])
         if tag.startswith('grid:'):
             chk.count('outcome', tag[5:].split('/')[0])
+        if tag.startswith('sweep:'):
+            chk.count('mtu_sweep', tag[6:])
         if model is not None and model[idx] != canon:
             disagree.append((idx, tag))
             first = next((k for (k, (x, y)) in enumerate(zip(canon['inputs'], model[idx]['inputs'])) if x != y), None)
@@ -372,7 +427,9 @@ def main():
         rule='grid: every subset of the five request flags (reception, forwarding, delivery, deletion, status time) x report-to kinds '
              '(dtn:none, routed endpoint, endpoint without transmit route for every outcome; own node, CL not attached, MTU too small for '
              'three outcomes in the quick tier and for all in the thorough tier) x %d outcomes (%s), one agent per (outcome, report-to) fed the 32 bundles in turn, plus random histories from the C10 '
-             'generator and the corpus; every bundle handed to the fake CL is decoded with plain cbor2 and an independent CRC and checked '
+             'generator and the corpus, plus an MTU sweep on the forward route (payload 0/1/23/24 octets x MTU = forwarded size +1..-8, -20, /2, '
+             'size from the independent encoder, x the 24 flag subsets containing forwarding or deletion; model inputs b_size from that size and '
+             'b_fragfeas from whether fragments were really transmitted); every bundle handed to the fake CL is decoded with plain cbor2 and an independent CRC and checked '
              'against the property text / RFC 9171 6.1.1; the same cases run through BpAgent.run_render in Coq and are compared event by '
              'event; one evaluation = one received bundle, non-trivial = it caused at least one event' % (len(OUTCOMES), ', '.join(sorted(OUTCOMES))),
         assumptions=[
